@@ -40,7 +40,7 @@ configs_of() { # property -> harness configurations it runs in
     *)   echo "default";;
   esac
 }
-needs_cli() { case "$1" in C08|C10|C11|C14|C15|C18|C19|C21|C22|C24|C26|C27|C28|C29|C30) return 0;; *) return 1;; esac; }
+needs_cli() { case "$1" in C08|C10|C11|C14|C15|C18|C19|C21|C22|C23|C24|C25|C26|C27|C28|C29|C30) return 0;; *) return 1;; esac; }
 
 if [ "${1:-}" = "replay" ]; then
   [ -n "${2:-}" ] || { echo "usage: run.sh replay <file>" >&2; exit 2; }
